@@ -59,6 +59,24 @@ pub fn collections(_cex: &Value) -> Result<String, String> {
         return log;
       }
     }
+    // one step from every duplicate-free start of length 4 and 5 over six keys: all update / replace arguments
+    for start in [vec![1u8, 2, 3, 4], vec![1, 2, 3, 4, 5], vec![5, 3, 1, 4, 2], vec![2, 4, 1, 3]] {
+      for a in 0..7u8 {
+        for b in 0..7u8 {
+          for op in [3u8, 4] {
+            let mut set = OrderedSet::try_from(start.clone()).unwrap();
+            let mut model = start.clone();
+            let (got, want) = if op == 3 { (set.update(a), model_change(&mut model, [a, a], a)) } else { (set.replace(&a, b), model_change(&mut model, [a, b], b)) };
+            if got != want || set.as_slice() != model.as_slice() {
+              log.push(format!("{start:?} {}({a},{b}): flag {got} (model {want}), set {:?}, model {model:?}", if op == 3 { "update" } else { "replace" }, set.as_slice()));
+            }
+          }
+        }
+      }
+      if log.len() > 3 {
+        return log;
+      }
+    }
     for v in [vec![], vec![1u8], vec![1, 2], vec![1, 1], vec![1, 2, 1]] {
       let dup = (1..v.len()).any(|i| v[..i].contains(&v[i]));
       if OrderedSet::try_from(v.clone()).is_ok() == dup {
@@ -98,6 +116,37 @@ pub fn collections(_cex: &Value) -> Result<String, String> {
       }
       if serde_json::from_str::<OneOrMany<u8>>(&json).ok().as_ref() != Some(&m) {
         log.push(format!("OneOrMany {json} does not deserialise to itself"));
+      }
+    }
+    // JSON offered for deserialisation: duplicates and empties are refused, everything else round-trips in order
+    for text in ["[]", "[1]", "[1,2]", "[2,1]", "[4,4]", "[1,2,1]", "[1,1,2]", "[3,2,1,3]", "7"] {
+      let v: Vec<u8> = serde_json::from_str::<serde_json::Value>(text).ok().map(|x| match x {
+        serde_json::Value::Array(a) => a.iter().filter_map(|e| e.as_u64().map(|n| n as u8)).collect(),
+        serde_json::Value::Number(n) => vec![n.as_u64().unwrap_or(0) as u8],
+        _ => vec![],
+      }).unwrap_or_default();
+      let mut dedup = v.clone();
+      dedup.sort();
+      dedup.dedup();
+      let has_dup = dedup.len() != v.len();
+      let want_ok = !v.is_empty() && !has_dup;
+      let got = serde_json::from_str::<OneOrSet<u8>>(text);
+      if got.is_ok() != want_ok {
+        log.push(format!("[serde] OneOrSet from {text}: {}", if got.is_ok() { "accepted" } else { "rejected" }));
+      }
+      if let Ok(s) = &got {
+        if s.iter().copied().collect::<Vec<u8>>() != v {
+          log.push(format!("[serde] OneOrSet from {text} holds {:?}", s.iter().collect::<Vec<_>>()));
+        }
+        if serde_json::from_str::<OneOrSet<u8>>(&serde_json::to_string(s).unwrap()).ok().as_ref() != Some(s) {
+          log.push(format!("[serde] OneOrSet from {text} does not survive its own JSON"));
+        }
+      }
+      if text.starts_with('[') {
+        let os = serde_json::from_str::<OrderedSet<u8>>(text);
+        if os.is_ok() == has_dup {
+          log.push(format!("[serde] OrderedSet from {text}: {}", if os.is_ok() { "accepted" } else { "rejected" }));
+        }
       }
     }
     let mapped = OneOrSet::new_set(OrderedSet::try_from(vec![1u8, 2]).unwrap()).unwrap().map(|_| 7u8);
